@@ -112,6 +112,7 @@ pub fn run_grid(sim: &Sim, idx: u64) {
         req_src_pending: 0,
         extra_polls: 0,
         early_trailers_after: None,
+        ping_pong: false,
     };
     sim.nontrivial();
     sim.sample(|| format!("grid cell {cell}: {:?} shape={} disable_compression={}", cfg, c02::SHAPES[shape], plan.script.disable_compression));
